@@ -39,7 +39,7 @@ fn mk_cfg(tier: Tier) -> RunCfg {
         .unwrap_or(1.0);
     let root = root_dir();
     let kf = KnownFindings::load(&root);
-    RunCfg { tier, seed, workers, root, kf, scale }
+    RunCfg { tier, seed, workers, root, kf, scale, strict: std::env::var_os("VP_STRICT").is_some() }
 }
 
 fn write_evidence(cfg: &RunCfg, rep: &Report, wall: f64) {
